@@ -23,6 +23,9 @@ type termCase struct {
 	CauseAt int          `json:"cause_step"`
 	// Unreachable: the client's address is unreachable when the cause arrives (writes to it fail).
 	Unreachable bool `json:"unreachable,omitempty"`
+	// LateDisconnect: after a gateway shutdown the client sends a plain DISCONNECT (its answer to the
+	// gateway's DISCONNECT) within the poll interval.
+	LateDisconnect bool `json:"late_disconnect,omitempty"`
 }
 
 func genTerm(t *rapid.T) termCase {
@@ -126,6 +129,13 @@ func genTerm(t *rapid.T) termCase {
 	switch c.Cause {
 	case "cancel":
 		add(gwgen.Cancel())
+		if !c.Unreachable && rapid.IntRange(0, 2).Draw(t, "client_acks_disconnect") == 0 {
+			// the client answers the gateway's farewell DISCONNECT with a DISCONNECT of its own, which
+			// arrives while the session is winding down: the session was ended by the shutdown, so
+			// the will must not be cancelled
+			add(gwgen.Adv(int64(rapid.SampledFrom([]int{1, 20, 60, 99}).Draw(t, "ack_ms"))), gwgen.SN(gwgen.Disconnect(0)))
+			c.LateDisconnect = true
+		}
 	case "disconnect":
 		add(gwgen.SN(gwgen.Disconnect(0)))
 	case "mqclose":
@@ -155,7 +165,7 @@ func causeEvent(tr *gwsim.Trace, step int) (int, *gwsim.Event) {
 func TestC13(t *testing.T) {
 	vf.Check(t, vf.Prop[termCase]{
 		ID: "C13", Name: "clean-termination", Bubble: true, DeadlockIsViolation: true,
-		Rule: "a session prefix (fresh / mid connect exchange with the broker silent or WILL*/AUTH outstanding / active with 0-4 operations some left pending: unacknowledged client QoS 1 publish, unacknowledged broker QoS 1/2 publish, unacknowledged gateway REGISTER / asleep without and with a running sleep pinger (sleep durations with a zero low or high byte included) / asleep and announcing a new sleep duration / after a wake-up / reconnected after a wake-up) followed, after a drawn pause around the poll interval, by one termination cause: gateway shutdown, client plain DISCONNECT, broker closing the connection, undecodable datagram, illegal packet while disconnected, undecodable MQTT bytes; for the causes which need no datagram the client is, in a fifth of the cases, unreachable by then (writes to it fail); in a quarter of the active prefixes the broker has stopped reading and a write to it is pending. Non-trivial = cause other than a clean DISCONNECT of an idle active session, or pending exchanges/pinger at the cause; distinct by (prefix, cause, pending, script).",
+		Rule: "a session prefix (fresh / mid connect exchange with the broker silent or WILL*/AUTH outstanding / active with 0-4 operations some left pending: unacknowledged client QoS 1 publish, unacknowledged broker QoS 1/2 publish, unacknowledged gateway REGISTER / asleep without and with a running sleep pinger (sleep durations with a zero low or high byte included) / asleep and announcing a new sleep duration / after a wake-up / reconnected after a wake-up) followed, after a drawn pause around the poll interval, by one termination cause: gateway shutdown, client plain DISCONNECT, broker closing the connection, undecodable datagram, illegal packet while disconnected, undecodable MQTT bytes; for the causes which need no datagram the client is, in a fifth of the cases, unreachable by then (writes to it fail); in a quarter of the active prefixes the broker has stopped reading and a write to it is pending; after a third of the gateway shutdowns the client answers the farewell DISCONNECT with a plain DISCONNECT of its own 1-99 ms later. Non-trivial = cause other than a clean DISCONNECT of an idle active session, or pending exchanges/pinger at the cause; distinct by (prefix, cause, pending, script).",
 		Assumptions: []string{"bound: run returns within 100 ms (poll interval) + 1 ms of the cause on the virtual clock; sends are instantaneous on the in-memory links",
 			"the DISCONNECT-count clause is asserted in model states on which specification and implementation cannot disagree (never connected, active, asleep before the first wake-up); after a wake-up only termination, close and the goroutine census are asserted",
 			"the 'broker unreachable' cause needs a real dial and is checked by the separate part dial-failure"},
@@ -171,6 +181,7 @@ func TestC13(t *testing.T) {
 func TestC14(t *testing.T) {
 	vf.Check(t, vf.Prop[termCase]{
 		ID: "C14", Name: "will-cancelled-only-by-disconnect", Bubble: true,
+		Assumptions: []string{"a plain DISCONNECT which the client sends only after the gateway's shutdown has begun (its answer to the farewell DISCONNECT) does not make the ending a client disconnect: the session ended by 'gateway shutdown', which the statement lists among the endings without MQTT DISCONNECT; one arriving at the very instant of the shutdown is not generated"},
 		Rule: "same generator as C13 (session prefix x termination cause, sleep included). Non-trivial = cause other than the client's plain DISCONNECT, or a plain DISCONNECT from a state other than idle active; distinct by (prefix, cause, pending, script).",
 		Gen:  genTerm,
 		Run: func(c termCase) (r vf.Result) {
@@ -192,8 +203,8 @@ func checkTermination(which string, c termCase, tr *gwsim.Trace, r *vf.Result) {
 	if which == "C14" {
 		// at any point of the history: an MQTT DISCONNECT needs a plain client DISCONNECT before it
 		plain := false
-		for _, e := range tr.Events {
-			if e.Dir == gwsim.CG && e.SN != nil && e.SN.Type == snref.DISCONNECT && e.SN.Duration == 0 {
+		for j, e := range tr.Events {
+			if e.Dir == gwsim.CG && e.SN != nil && e.SN.Type == snref.DISCONNECT && e.SN.Duration == 0 && !(c.LateDisconnect && j > ci) {
 				plain = true
 			}
 			if e.Dir == gwsim.GB && e.MQ != nil && e.MQ.Type == mqttref.DISCONNECT && !plain {
